@@ -21,6 +21,7 @@ import (
 	"runtime"
 	"sort"
 	"strings"
+	"syscall"
 	"time"
 
 	"github.com/goplus/gogen"
@@ -269,6 +270,10 @@ func runC07Worker(args []string) {
 	impFset := token.NewFileSet()
 	imp := packages.NewImporter(impFset)
 	bctx := build.Default()
+	// warm-up: the importer's `go list` calls are paid before the first timed job
+	c07One(c07Job{ID: -1, Name: "main.xgo", Src: "import \"fmt\"\n\nfmt.Println(1, \"a\")\necho [1, 2]\n"}, imp, bctx)
+	fmt.Fprintln(w, "READY")
+	w.Flush()
 	for sc.Scan() {
 		var j c07Job
 		if json.Unmarshal(sc.Bytes(), &j) != nil {
@@ -433,9 +438,11 @@ func runWorker(self, dir string, jobs []c07Job, tag string, outs map[int]*c07Out
 		jf.Close()
 		cmd := exec.Command(self, "c07-worker", jp, dir)
 		cmd.Env = append(os.Environ(), "GOTRACEBACK=single")
+		cmd.SysProcAttr = &syscall.SysProcAttr{Setpgid: true}
 		stdout, _ := cmd.StdoutPipe()
-		var stderr strings.Builder
-		cmd.Stderr = &limitedWriter{w: &stderr, n: 1 << 16}
+		errPath := filepath.Join(dir, "stderr-"+tag+".txt")
+		errFile, _ := os.Create(errPath) // a file, not a pipe: grandchildren cannot block Wait
+		cmd.Stderr = errFile
 		if err := cmd.Start(); err != nil {
 			fmt.Fprintln(os.Stderr, "worker:", err)
 			os.Exit(3)
@@ -451,19 +458,21 @@ func runWorker(self, dir string, jobs []c07Job, tag string, outs map[int]*c07Out
 		}()
 		cur, done := -1, 0
 		timedOut := false
-		first := true
+		ready := false
 	loop:
 		for {
 			lim := c07Cap
-			if first {
-				lim = 4 * c07Cap // importer start-up
+			if !ready {
+				lim = 20 * time.Minute // importer start-up (`go list`), not part of any compile
 			}
 			select {
 			case l, ok := <-lines:
 				if !ok {
 					break loop
 				}
-				if strings.HasPrefix(l, "S ") {
+				if l == "READY" {
+					ready = true
+				} else if strings.HasPrefix(l, "S ") {
 					fmt.Sscan(l[2:], &cur)
 				} else if strings.HasPrefix(l, "R ") {
 					var o c07Out
@@ -472,19 +481,25 @@ func runWorker(self, dir string, jobs []c07Job, tag string, outs map[int]*c07Out
 						outs[o.ID] = &oo
 						done++
 						cur = -1
-						first = false
 					}
 				}
 			case <-time.After(lim):
 				timedOut = true
-				cmd.Process.Kill()
+				syscall.Kill(-cmd.Process.Pid, syscall.SIGKILL)
 				break loop
 			}
 		}
 		cmd.Wait()
+		errFile.Close()
 		if done == len(jobs) {
 			return
 		}
+		if !ready {
+			fmt.Fprintln(os.Stderr, "c07 worker did not become ready")
+			os.Exit(4)
+		}
+		eb, _ := os.ReadFile(errPath)
+		stderr := string(eb)
 		// the worker ended early: job `cur` (or the next one) is the offender
 		off := done
 		if cur >= 0 {
@@ -500,7 +515,7 @@ func runWorker(self, dir string, jobs []c07Job, tag string, outs map[int]*c07Out
 		} else {
 			o.Compile = "FATAL"
 		}
-		extra[jobs[off].ID] = trunc(stderr.String(), 1500)
+		extra[jobs[off].ID] = trunc(stderr, 1500)
 		outs[jobs[off].ID] = o
 		jobs = jobs[off+1:]
 	}
@@ -611,6 +626,11 @@ func runC07(args []string) {
 				if ex[j.ID] != "" {
 					extra[j.ID] = ex[j.ID]
 				}
+				if s.Compile == "TIMEOUT" && overloaded() {
+					// a cap hit on an overloaded machine decides nothing (DESIGN 7.1): exit 2, never an alarm
+					fmt.Fprintf(os.Stderr, "compile of case %d hit the %v cap while the machine is overloaded\n", j.ID, c07Cap)
+					os.Exit(5)
+				}
 			}
 		}
 	}
@@ -686,6 +706,17 @@ func runC07(args []string) {
 		sum[k] = v
 	}
 	hlib.EmitRaw(sum)
+}
+
+// overloaded: the 1-minute load average exceeds twice the number of CPUs.
+func overloaded() bool {
+	b, err := os.ReadFile("/proc/loadavg")
+	if err != nil {
+		return false
+	}
+	var l1 float64
+	fmt.Sscan(string(b), &l1)
+	return l1 > 2*float64(runtime.NumCPU())
 }
 
 func fatalClass(stderr string) string {
